@@ -68,6 +68,29 @@ const HEADER_FIELDS: [(&str, usize, usize); 22] = [("magic", 0, 4), ("version", 
   ("types_count", 29, 4), ("types_off", 33, 8), ("const_count", 41, 4), ("const_tbl_off", 45, 8), ("const_tbl_len", 53, 8), ("const_blob_off", 61, 8), ("const_blob_len", 69, 8), ("symbols_len", 77, 8), ("symbols_off", 85, 8),
   ("instr_off", 93, 8), ("instr_len", 101, 8), ("dict_off", 109, 8), ("dict_len", 117, 8), ("reserved", 125, 4)];
 
+fn rd32(b: &[u8], o: usize) -> u32 { if o + 4 <= b.len() { u32::from_le_bytes(b[o..o + 4].try_into().unwrap()) } else { 0 } }
+
+/// the emitted file with the blob replaced by `blob` and constant `ci` pointing at all of it (every other entry is clipped to the
+/// new blob), later sections shifted, header and trailer rewritten. None if the header is not laid out as expected.
+pub fn with_payload(file: &[u8], ci: usize, blob: &[u8]) -> Option<Vec<u8>> {
+  let body = &file[..file.len().checked_sub(4)?];
+  let (tbl_off, tbl_len, blob_off, blob_len) = (rd64(body, 45) as usize, rd64(body, 53) as usize, rd64(body, 61) as usize, rd64(body, 69) as usize);
+  let n = rd32(body, 41) as usize;
+  if n == 0 || ci >= n || tbl_len != n * 24 || tbl_off + tbl_len > body.len() || blob_off + blob_len > body.len() || blob_off < tbl_off + tbl_len { return None; }
+  let mut m: Vec<u8> = body[..blob_off].to_vec();
+  m.extend_from_slice(blob);
+  m.extend_from_slice(&body[blob_off + blob_len..]);
+  let delta = blob.len() as i64 - blob_len as i64;
+  m[69..77].copy_from_slice(&(blob.len() as u64).to_le_bytes());
+  for field in [21usize, 33, 85, 93, 109] { let o = rd64(body, field); if o as usize >= blob_off + blob_len && o != 0 { m[field..field + 8].copy_from_slice(&((o as i64 + delta) as u64).to_le_bytes()); } }
+  for k in 0..n {
+    let e = tbl_off + k * 24;
+    if k == ci { m[e + 8..e + 16].copy_from_slice(&0u64.to_le_bytes()); m[e + 16..e + 24].copy_from_slice(&(blob.len() as u64).to_le_bytes()); }
+    else { let len = rd64(body, e + 16).min(blob.len() as u64); m[e + 8..e + 16].copy_from_slice(&0u64.to_le_bytes()); m[e + 16..e + 24].copy_from_slice(&len.to_le_bytes()); }
+  }
+  Some(with_trailer(m))
+}
+
 fn rd64(b: &[u8], o: usize) -> u64 { if o + 8 <= b.len() { u64::from_le_bytes(b[o..o + 8].try_into().unwrap()) } else { 0 } }
 
 /// name of the section a byte offset lies in (from the file's own header)
@@ -101,6 +124,36 @@ pub fn emit_bytes(src: &str) -> Option<Vec<u8>> {
   let mut i = Interpreter::new(0);
   match catch_unwind(AssertUnwindSafe(|| i.interpret(&tree))) { Ok(Ok(_)) => {}, _ => return None }
   match catch_unwind(AssertUnwindSafe(|| i.compile())) { Ok(Ok(b)) => Some(b), _ => None }
+}
+
+/// the round-trip conditions for one emitted file: loads, re-encodes to the same bytes, header counts agree, constants decode (4 decodes)
+fn check_emitted(bytes: &[u8], case: &str, tag: &str, out: &mut WorkerOut) {
+  let case = case.to_string();
+  let bytes = bytes.to_vec();
+  for rep in 0..4 {
+          match catch_unwind(AssertUnwindSafe(|| ParsedProgram::from_bytes(&bytes))) {
+            Ok(Ok(p)) => {
+              match catch_unwind(AssertUnwindSafe(|| p.to_bytes())) {
+                Ok(Ok(re)) => if re != bytes {
+                  let first = re.iter().zip(bytes.iter()).position(|(a, b)| a != b).unwrap_or(re.len().min(bytes.len()));
+                  out.fail(format!("C07|roundtrip-differs|{}{}", section_of(&bytes, first), tag), case.clone(), format!("re-encoded file differs first at byte {} (lengths {} / {})", first, re.len(), bytes.len()));
+                },
+                Ok(Err(e)) => out.fail(format!("C07|roundtrip-differs|to_bytes-error{}", tag), case.clone(), e.kind_name()),
+                Err(e) => out.fail("C07|panic|to_bytes".into(), case.clone(), panic_msg(e)),
+              }
+              // header / constants / instructions as written
+              if p.header.instr_count as usize != p.instrs.len() { out.fail("C07|roundtrip-differs|instr_count".into(), case.clone(), format!("header says {} instructions, decoded {}", p.header.instr_count, p.instrs.len())); }
+              if p.header.const_count as usize != p.const_entries.len() { out.fail("C07|roundtrip-differs|const_count".into(), case.clone(), format!("header says {} constants, decoded {}", p.header.const_count, p.const_entries.len())); }
+              match catch_unwind(AssertUnwindSafe(|| p.decode_const_entries())) {
+                Ok(Ok(vals)) => { if rep == 0 && tag.is_empty() { out.set("const_kinds", &vals.iter().map(|v| canon(v).kind_name()).collect::<Vec<_>>().join(",")); out.set("instr_shapes", &p.instrs.iter().map(|i| format!("{:?}", i).split(' ').next().unwrap_or("").to_string()).collect::<std::collections::BTreeSet<_>>().into_iter().collect::<Vec<_>>().join(",")); } }
+                Ok(Err(e)) => out.fail(format!("C07|roundtrip-differs|decode_const_entries-error{}", tag), case.clone(), e.kind_name()),
+                Err(e) => out.fail(format!("C07|panic|decode_const_entries{}", tag), case.clone(), panic_msg(e)),
+              }
+            }
+            Ok(Err(e)) => { out.fail(format!("C07|roundtrip-differs|emitted-file-rejected{}", tag), case.clone(), e.kind_name()); break; }
+            Err(e) => { out.fail("C07|panic|from_bytes".into(), case.clone(), panic_msg(e)); break; }
+          }
+        }
 }
 
 fn burst_patterns(l: usize) -> Vec<u32> {
@@ -144,28 +197,29 @@ impl UnitRunner for C07 {
         // same program compiled again in this process must give the same bytes
         // (the statement fixes decode/re-encode of emitted bytes, not that two compilations emit identical bytes: recorded only)
         if let Some(again) = emit_bytes(&src) { if again != bytes { out.count("two_compilations_in_one_process_emit_different_bytes"); } }
-        for rep in 0..4 {
-          match catch_unwind(AssertUnwindSafe(|| ParsedProgram::from_bytes(&bytes))) {
-            Ok(Ok(p)) => {
-              match catch_unwind(AssertUnwindSafe(|| p.to_bytes())) {
-                Ok(Ok(re)) => if re != bytes {
-                  let first = re.iter().zip(bytes.iter()).position(|(a, b)| a != b).unwrap_or(re.len().min(bytes.len()));
-                  out.fail(format!("C07|roundtrip-differs|{}", section_of(&bytes, first)), case.clone(), format!("re-encoded file differs first at byte {} (lengths {} / {})", first, re.len(), bytes.len()));
-                },
-                Ok(Err(e)) => out.fail(format!("C07|roundtrip-differs|to_bytes-error"), case.clone(), e.kind_name()),
-                Err(e) => out.fail("C07|panic|to_bytes".into(), case.clone(), panic_msg(e)),
+        check_emitted(&bytes, &case, "", out);
+        // emission histories: a second compile() of the same interpreter, and a compile() after more source was interpreted, must emit
+        // files that satisfy the same conditions (the statement is about every file the compiler emits, not only the first)
+        if let Some(tree) = parse_cached(&src) {
+          let mut i = Interpreter::new(0);
+          if let Ok(Ok(_)) = catch_unwind(AssertUnwindSafe(|| i.interpret(&tree))) {
+            let first = catch_unwind(AssertUnwindSafe(|| i.compile()));
+            if let Ok(Ok(_)) = first {
+              match catch_unwind(AssertUnwindSafe(|| i.compile())) {
+                Ok(Ok(b2)) => { out.evaluations += 1; out.nontrivial += 1; out.count("second_compile_checked"); check_emitted(&b2, &format!("{} ; second compile() of the same interpreter", case), ":second-compile", out); }
+                Ok(Err(_)) => out.count("second_compile_rejected"),
+                Err(e) => out.fail("C07|panic|second-compile".into(), case.clone(), panic_msg(e)),
               }
-              // header / constants / instructions as written
-              if p.header.instr_count as usize != p.instrs.len() { out.fail("C07|roundtrip-differs|instr_count".into(), case.clone(), format!("header says {} instructions, decoded {}", p.header.instr_count, p.instrs.len())); }
-              if p.header.const_count as usize != p.const_entries.len() { out.fail("C07|roundtrip-differs|const_count".into(), case.clone(), format!("header says {} constants, decoded {}", p.header.const_count, p.const_entries.len())); }
-              match catch_unwind(AssertUnwindSafe(|| p.decode_const_entries())) {
-                Ok(Ok(vals)) => { if rep == 0 { out.set("const_kinds", &vals.iter().map(|v| canon(v).kind_name()).collect::<Vec<_>>().join(",")); out.set("instr_shapes", &p.instrs.iter().map(|i| format!("{:?}", i).split(' ').next().unwrap_or("").to_string()).collect::<std::collections::BTreeSet<_>>().into_iter().collect::<Vec<_>>().join(",")); } }
-                Ok(Err(e)) => out.fail("C07|roundtrip-differs|decode_const_entries-error".into(), case.clone(), e.kind_name()),
-                Err(e) => out.fail("C07|panic|decode_const_entries".into(), case.clone(), panic_msg(e)),
+              if let Some(more) = parse_cached("zzq := 5 + 1") {
+                if let Ok(Ok(_)) = catch_unwind(AssertUnwindSafe(|| i.interpret(&more))) {
+                  match catch_unwind(AssertUnwindSafe(|| i.compile())) {
+                    Ok(Ok(b3)) => { out.evaluations += 1; out.nontrivial += 1; out.count("compile_after_more_source_checked"); check_emitted(&b3, &format!("{} ; compile() ; zzq := 5 + 1 ; compile()", case), ":compile-after-more-source", out); }
+                    Ok(Err(_)) => out.count("compile_after_more_source_rejected"),
+                    Err(e) => out.fail("C07|panic|compile-after-more-source".into(), case.clone(), panic_msg(e)),
+                  }
+                }
               }
             }
-            Ok(Err(e)) => { out.fail("C07|roundtrip-differs|emitted-file-rejected".into(), case.clone(), e.kind_name()); break; }
-            Err(e) => { out.fail("C07|panic|from_bytes".into(), case.clone(), panic_msg(e)); break; }
           }
         }
         if b % 5 == 0 { out.sample(json!({"program": src, "bytes": bytes.len()})); }
@@ -233,6 +287,25 @@ impl UnitRunner for C07 {
           }
         }
       }
+      "payload" => {
+        // unit = one fill byte: the blob of every constant replaced by a run of that byte (and by the two-byte period fill,tag for every
+        // kind tag <= 32) of growing length; table entry, header offsets and trailer rewritten so that only the payload is hostile
+        let bytes = match self.emit(b) { Some(x) => x, None => return };
+        let fill = unit as u8;
+        let lens: Vec<usize> = self.tier.pick(vec![1, 5, 64, 4096, 65536], vec![1, 2, 5, 17, 64, 1024, 4096, 65536, 1 << 20]);
+        let n_const = rd32(&bytes, 41) as usize;
+        for ci in 0..n_const {
+          for n in &lens {
+            let mut blobs: Vec<(String, Vec<u8>)> = vec![(format!("{:#04x} x {}", fill, n), vec![fill; *n])];
+            if *n >= 2 && fill <= 32 { for second in 0..=32u8 { if second != fill { blobs.push((format!("({:#04x},{:#04x}) x {}", fill, second, n / 2), (0..*n).map(|i| if i % 2 == 0 { fill } else { second }).collect())); } } }
+            for (what, blob) in blobs {
+              let m = match with_payload(&bytes, ci, &blob) { Some(m) => m, None => continue };
+              out.evaluations += 1; out.nontrivial += 1;
+              if let Dec::Panic(msg) = decode(&m) { out.fail("C07|panic|constant-payload".into(), format!("{}: payload of constant {} replaced by {}", name, ci, what), msg); }
+            }
+          }
+        }
+      }
       "tiny" => {
         // every byte string of length <= 2, and MECH-header prefixes padded with zeros, with and without a valid trailer
         let mut inputs: Vec<Vec<u8>> = vec![vec![]];
@@ -284,6 +357,8 @@ impl Check for C07 {
       if bit_files.contains(b) { jobs.extend(range_jobs(&format!("bits {}", b), ((len * 8 + BITS_PER_UNIT - 1) / BITS_PER_UNIT) as u64, 1)); }
       if struct_files.contains(b) { jobs.extend(range_jobs(&format!("struct {}", b), ((len + BYTES_PER_UNIT - 1) / BYTES_PER_UNIT) as u64, 4)); }
     }
+    // hostile constant payloads: every fill byte for every constant of every file
+    for b in &files { jobs.extend(range_jobs(&format!("payload {}", b), 256, 16)); }
     jobs.push(Job { payload: "tiny 0".into(), lo: 0, hi: 1 });
     let progs = self.progs.clone();
     rep.describe = Some(Box::new(move |p, u| {
@@ -294,7 +369,7 @@ impl Check for C07 {
     }));
     drive_ranges(cfg, rep, jobs);
     rep.rule = format!("{} base files emitted by the compiler ({} compile); for every file: exact re-encoding + decode consistency in 4 decodes and 2 processes, every truncation length; for {} files every single-bit flip and every burst of <= {} bits (all patterns with both end bits set) at every bit offset plus pattern families (all ones, ends only, alternating, ends+one interior bit) for {} up to 32 bits; \
-      for {} files every byte offset x width(1,2,4,8) x boundary value (0,1,old+-1,file length,remaining length,2^31,2^32-1,2^40,2^47,2^62,MAX...) with the CRC trailer recomputed; all byte strings of length <= 2 and MECH-prefixed zero/FF-padded inputs. \
+      for {} files every byte offset x width(1,2,4,8) x boundary value (0,1,old+-1,file length,remaining length,2^31,2^32-1,2^40,2^47,2^62,MAX...) with the CRC trailer recomputed; for every file and every constant the payload replaced by runs of each byte value (and two-byte periods over the kind tags) of length 1 .. 64 KiB (1 MiB thorough) with table entry, header and trailer rewritten; all byte strings of length <= 2 and MECH-prefixed zero/FF-padded inputs. \
       evaluations = mutants decoded (from_bytes then decode_const_entries); non-trivial = all of them (each has a verdict: must be rejected, or must not panic/abort/hang)",
       nb, files.len(), bit_files.len(), tier.pick(7, 10), if tier == Tier::Thorough { "every length" } else { "lengths 16 and 32" }, struct_files.len());
     rep.assumptions = vec![
